@@ -94,6 +94,34 @@ func c02MakeList(c *core.Ctx) *c02List {
 				l.lines = append(l.lines, tt)
 				l.specs[tt] = tw
 			}
+		case r == 5 && c.Rng.Intn(2) == 0:
+			// Rules whose whole texts collide under FastHash and that land in
+			// the sequential table, plus hosts lines for a name they match.
+			prefix := []string{"||a", "||s", "@@||t", "|h"}[c.Rng.Intn(4)]
+			groups := gen.CollidingTails(prefix)
+			if len(groups) == 0 {
+				continue
+			}
+			g := groups[c.Rng.Intn(len(groups))]
+			suffix := []string{"*.ru^", "*.ru^$important", "*.ru^$dnstype=A"}[c.Rng.Intn(3)]
+			for _, t := range g {
+				sp := &gen.Spec{Pattern: strings.TrimPrefix(prefix, "@@") + t + "*.ru^", Exception: strings.HasPrefix(prefix, "@@")}
+				if strings.Contains(suffix, "important") {
+					sp.Important = true
+				}
+				if strings.Contains(suffix, "dnstype") {
+					sp.DNSTypes = []gen.Val{{Name: "A"}}
+				}
+				text := prefix + t + suffix
+				l.lines = append(l.lines, text)
+				l.specs[text] = sp
+				name := strings.NewReplacer("||", "", "|", "", "@@", "").Replace(prefix+t) + "7.ru"
+				l.nhosts = append(l.nhosts, name)
+				if c.Rng.Intn(2) == 0 {
+					l.lines = append(l.lines, "0.0.0.0 "+name)
+					l.hosts = append(l.hosts, c02HostLine{"0.0.0.0 " + name, []string{name}, true})
+				}
+			}
 		case r < 8:
 			ip := c18IPs[c.Rng.Intn(len(c18IPs))]
 			k := 1 + c.Rng.Intn(3)
